@@ -30,19 +30,25 @@ import zlib
 from . import common
 
 PROP = "C09"
-RULE = ("join: 2-5 generated inputs (1-6 events each) drawn from a pool of 20 "
-        "feature names, each input lacking 0-3 features of a common base set or "
-        "holding only the precursors of a computable one (circ for deform, "
-        "size_x/size_y for aspect, area_cvx for area_um, frame for time), "
-        "dates over 6 days incl. month/year/leap boundaries, times within 4 s "
-        "with fractions '', .000, .125 ... .875, .50, .500, run indices "
-        "1,2,3,9,10,11,100, frame rates 0.125..2000; split: N=1..12, split "
-        "sizes 1, 2, 3, divisors, N-1, N, N+1, 2N, optional image feature with "
-        "all-zero first/last image, both skip flags; joinsplit: the parts of a "
-        "split joined in order. A case is non-trivial when (join) at least two "
-        "inputs differ in acquisition time or feature set, (split) more than "
-        "one part or a skipped boundary event, (joinsplit) more than one part; "
-        "distinct = different case dictionaries")
+RULE = ("corpus/C09 hand seeds first; join: 2-5 generated inputs (1-6 events "
+        "each) drawn from a pool of 20 feature names, each input lacking 0-3 "
+        "features of a common base set (half of the time a run of neighbours "
+        "in sorted order) or holding only the precursors of a computable one "
+        "(circ for deform, size_x/size_y for aspect, area_cvx for area_um, "
+        "frame for time), an occasional extra feature, dates over 6 days incl. "
+        "month/year/leap boundaries, times within 4 s with fractions '', .000, "
+        ".125 ... .875, .50, .500, run indices 1,2,3,9,10,11,100, frame rates "
+        "0.125..2000 (round-half-even cases), 0-2 logs per input; split: "
+        "N=1..12, split sizes 1, 2, 3, divisors, N-1, N, N+1, 2N, optional "
+        "image feature with all-zero first/last/inner image, both skip flags; "
+        "joinsplit: the parts of a split joined in order; pysem: the Python "
+        "semantics of Common/PyList.v (mutating loop, loop over a copy, str "
+        "<=, sorted stability, round, str(int), mktime) against the "
+        "interpreter. A case is non-trivial when (join) at least two inputs "
+        "differ in acquisition time or feature set, (split) more than one "
+        "part or a skipped boundary event, (joinsplit) more than one part, "
+        "(pysem) more than one element; distinct = different case "
+        "dictionaries")
 TRUSTED_BASE = [
     "time.mktime is modelled as seconds since the epoch in UTC (the harness "
     "sets TZ=UTC; time zones/DST not modelled)",
@@ -366,7 +372,10 @@ def encode_joined(path_out, order):
         for f in feats:
             vals = enc_values(f, ds[f])
             flat += [FID.get(f, 10 ** 7), len(vals)] + vals
-        logs = sorted(enc_logname(k) for k in ds.logs.keys())
+        # logs the model does not know (e.g. dclab-join-warnings-#i, or a
+        # log added by a later dclab version) are not part of the property
+        logs = sorted(p for p in (enc_logname(k) for k in ds.logs.keys())
+                      if p != (0, 999))
         flat += [len(logs)]
         for a, b in logs:
             flat += [a, b]
@@ -849,7 +858,7 @@ HEADER = ("From Coq Require Import ZArith List Bool.\nImport ListNotations.\n"
 
 
 def run(run):
-    nj, ns, njs, npy = (1500, 900, 500, 3000) if run.thorough else \
+    nj, ns, njs, npy = (700, 400, 250, 3000) if run.thorough else \
         (80, 50, 24, 300)
     cases = load_corpus()
     run.count("corpus", len(cases))
